@@ -186,12 +186,85 @@ def frame_json(df):
             "empty": bool(df.empty)}
 
 
+UNOBSERVABLE = object()
+
+
+def remembered_state(info):
+    """(dtypes Series, empty, strict) the info remembers from its last successful validation, None when it
+    remembers nothing, UNOBSERVABLE when the private representation is not one this harness knows.
+    Private attributes of pdtable: read through this one tolerant accessor only."""
+    import pandas as pd
+    d = getattr(info, "__dict__", {})
+    if "_last_dataframe_state" in d:
+        st = d["_last_dataframe_state"]
+        if st is None:
+            return None
+        return (st, d.get("_last_dataframe_empty"), d.get("_last_strict_types", info.metadata.strict_types))
+    cands = [k for k in d if k.startswith("_last") or k.startswith("_checked")]
+    if len(cands) == 1:
+        v = d[cands[0]]
+        if v is None:
+            return None
+        if isinstance(v, tuple) and len(v) == 3 and isinstance(v[0], pd.Series):
+            return v
+    return UNOBSERVABLE
+
+
 def state_json(info):
-    st = info._last_dataframe_state
-    if st is None:
-        return None
-    return {"cols": [[tok(l), str(d)] for l, d in st.items()], "empty": bool(info._last_dataframe_empty),
-            "strict": bool(getattr(info, "_last_strict_types", info.metadata.strict_types))}
+    r = remembered_state(info)
+    if r is None or r is UNOBSERVABLE:
+        return r
+    st, empty, strict = r
+    return {"cols": [[tok(l), str(d)] for l, d in st.items()], "empty": bool(empty),
+            "strict": bool(info.metadata.strict_types if strict is None else strict)}
+
+
+_ISSUER_CACHE = {}
+
+
+def issuing_function(filename, lineno):
+    """name of the innermost function of `filename` containing `lineno` (which code issued a warning)"""
+    import ast
+    if filename not in _ISSUER_CACHE:
+        spans = []
+        try:
+            tree = ast.parse(open(filename, encoding="utf-8").read())
+            for node in ast.walk(tree):
+                if isinstance(node, (ast.FunctionDef, ast.AsyncFunctionDef)):
+                    spans.append((node.lineno, node.end_lineno, node.name))
+        except (OSError, SyntaxError):
+            pass
+        _ISSUER_CACHE[filename] = spans
+    best = None
+    for lo, hi, name in _ISSUER_CACHE[filename]:
+        if lo <= lineno <= hi and (best is None or lo >= best[0]):
+            best = (lo, name)
+    return best[1] if best else None
+
+
+def is_pdtable_warning(w):
+    import os
+    return (os.sep + "pdtable" + os.sep) in str(getattr(w, "filename", ""))
+
+
+def classify_finalize_warnings(ws, result_is_plain):
+    """pdtable's warnings during one __finalize__ call, by stable facts (never by wording): the function that
+    issued it — `_combine_tables` warns about an unknown method, `__finalize__` about the fall-back — and, when
+    the functions have other names, by position and outcome (the fall-back warning is the last one and the
+    result is a plain DataFrame)."""
+    mine = [w for w in ws if is_pdtable_warning(w)]
+    names = []
+    for k, w in enumerate(mine):
+        fn = issuing_function(w.filename, w.lineno)
+        if fn == "_combine_tables":
+            names.append("unknown_method")
+        elif fn == "__finalize__":
+            names.append("fallback")
+        elif result_is_plain and k == len(mine) - 1:
+            names.append("fallback")
+        else:
+            names.append("unknown_method")
+    return names
 
 
 def reach_ids(info):
@@ -243,9 +316,14 @@ class World:
         info = t.df._table_data
         self.keep.append(t.df)
         o = self.raw_obs(info)
+        last = state_json(info)
+        if last is UNOBSERVABLE:
+            last = None
+            if self.dead is None:
+                self.dead = "remembered frame state unobservable (comparison with the model skipped)"
         self.infos.append({"name": o["name"], "dests": o["dests"], "origin": o["origin"],
                            "transposed": o["transposed"], "strict": o["strict"], "cols": o["cols"],
-                           "last": state_json(info)})
+                           "last": last})
         return self.register(info)
 
     def ref(self, info):
@@ -366,11 +444,7 @@ def install():
                 res = orig(self, other, method, **kw)
             except Exception as e:  # noqa: BLE001 — re-raised below
                 exc = e
-        names = []
-        for x in ws:
-            s = str(x.message)
-            names.append("unknown_method" if s.startswith("While combining pdTable metadata")
-                         else "fallback" if s.startswith("Unable to establish table metadata") else "other:" + s[:40])
+        names = classify_finalize_warnings(ws, exc is None and res is not self)
         w.on_finalize(self, m, own, lr, objs, obj_info, frame, res, exc, names)
         if exc is not None:
             raise exc
@@ -1440,7 +1514,7 @@ def run_case(seed, stream, index, ops):
                     R = thunk()
                 except Exception as e:  # noqa: BLE001 — judged by the oracle
                     exc = e
-            ws_outer = [w for w in ws if "pdTable" in str(w.message) or "table metadata" in str(w.message)]
+            ws_outer = [w for w in ws if is_pdtable_warning(w)]
             calls = world.calls[ncalls:]
             res.counts.append("finalize_calls:%d" % min(len(calls), 9))
             res.op_methods.append((name, [str(c["method"]) for c in calls]))
